@@ -31,6 +31,7 @@ AlwaysTaken(n) == n.k = "Branch" /\ n.rs1 = 0 /\ n.rs2 = 0 /\ n.op \in {"beq", "
 RegIn(x, r) ==
   LET idx == {i \in 1..Len(x.rin) : x.rin[i].reg = r} IN
   IF idx = {} THEN [t |-> "none", r |-> -1, n |-> 0, s |-> ""] ELSE x.rin[CHOOSE i \in idx : TRUE].v
+NonExitEcall(x) == Kind(x.node) = "ecall" /\ RegIn(x, 17).t = "c" /\ RegIn(x, 17).n \notin {10, 93}
 IsExitEcall(x) == Kind(x.node) = "ecall" /\ RegIn(x, 17).t = "c" /\ RegIn(x, 17).n \in {10, 93}
 
 \* node index carrying label L (0 if none)
@@ -47,7 +48,10 @@ Must(cfg, a) ==
   CASE k \in {"entry", "fentry", "plain", "call"} -> Succ(cfg, a)
     [] k = "branch" -> {Target(cfg, x.node.lab)} \cup (IF AlwaysTaken(x.node) THEN {} ELSE Succ(cfg, a))
     [] k = "jump"   -> {Target(cfg, x.node.lab)}
-    [] k = "ecall"  -> IF IsExitEcall(x) THEN {} ELSE Succ(cfg, a)
+    \* required only after an ecall whose number the analyzer itself claims to be a constant other than 10 / 93
+    \* (claims are C01's business); when it claims nothing about a7 the static reading requires nothing - whether an
+    \* executed transfer is an edge is then the machine's judgement (Machine!EdgeCheck)
+    [] k = "ecall"  -> IF NonExitEcall(x) THEN Succ(cfg, a) ELSE {}
     [] OTHER -> {}          \* ret, merge, indirect, linkjump: nothing required
 
 FuncExits(cfg) == { cfg.funcs[k].exit : k \in 1..Len(cfg.funcs) }
@@ -57,6 +61,7 @@ May(cfg, a) ==
     [] k = "merge"  -> { e \in FuncExits(cfg) : \E f \in 1..Len(cfg.funcs) :
                            cfg.funcs[f].exit = e /\ a \in SeqSet(cfg.funcs[f].nodes) }
     [] k = "linkjump" -> {Target(cfg, x.node.lab)} \cup Succ(cfg, a)
+    [] k = "ecall"  -> IF IsExitEcall(x) THEN {} ELSE Succ(cfg, a)       \* edges stop at exit ecalls
     [] OTHER -> Must(cfg, a)
 
 \* reference reachability: from the program entry along Must edges and calls
